@@ -181,7 +181,7 @@ func main() {
 			"concurrent scenarios: <=3 writers + 1 Reopen thread, preemption bound 1-3; 8 writers of the statement are not reached",
 			"write faults: only the persistent one (symbolic link to /dev/full) is injected: an acknowledged event must be present, so Process must not succeed when nothing could be written",
 		},
-		QuickBudget:    150 * time.Second,
+		QuickBudget:    300 * time.Second,
 		ThoroughBudget: 45 * time.Minute,
 	})
 }
